@@ -39,6 +39,9 @@ pub fn check(tier: Tier) -> Check {
     parts.push(Part::new("C10/quota", json!({"depth": tier.pick(4, 6), "r": 2, "early": 3}), 0, tier.pick(25, 400)));
     // operations issued on one long-lived handle and on clones of it
     parts.push(Part::new("C10/quota", json!({"depth": tier.pick(4, 6), "r": 2, "worker": true}), 0, tier.pick(25, 400)));
+    // publishes with the RETAIN flag set (the fixed-header flags must not matter)
+    parts.push(Part::new("C10/quota", json!({"depth": tier.pick(4, 5), "r": 1, "retain": true}), 0, tier.pick(25, 400)));
+    parts.push(Part::new("C10/quota", json!({"depth": tier.pick(4, 5), "r": 2, "retain": true}), 0, tier.pick(25, 400)));
     // one Context, two connections: R1 on the first, R on the second
     for (r1, r) in [(0u64, 1u64), (3, 1), (1, 2), (1, 3)] {
         parts.push(Part::new("C10/quota", json!({"depth": tier.pick(4, 6), "r": r, "r1": r1}), 0, tier.pick(25, 400)));
@@ -230,6 +233,14 @@ pub fn scenario(name: &str, params: &Value) -> Scenario {
             OpSpec::Subscribe(SubscribeSpec::simple("s")),
             OpSpec::Unsubscribe(UnsubscribeSpec::simple("s")),
         ];
+        if params["retain"].as_bool().unwrap_or(false) {
+            // the flag bits of the fixed header must not matter for the accounting
+            for q in [1u8, 2] {
+                let mut p = PublishSpec::simple(q, "t/r", b"retained");
+                p.retain = Some(true);
+                specs.push(OpSpec::Publish(p));
+            }
+        }
         if m.is_some() {
             specs.push(OpSpec::Publish(PublishSpec::simple(1, "t", &[b'x'; 100])));
             specs.push(OpSpec::Publish(PublishSpec::simple(2, "t", &[b'y'; 100])));
